@@ -1,8 +1,1 @@
 package engine
-
-type ICAWorld struct{}
-type ICAEvent struct{}
-type ICAWorldCfg struct{}
-
-func (w *World) execICA(st *Step)   {}
-func replayICATrace(tr *Trace, ck Checker) (*World, error) { return nil, nil }
